@@ -117,7 +117,7 @@ theorem buildLoop_sublist (c : BCtx) (sched : List Tx → List (Tx × Bool)) :
       exact List.Sublist.append h2 h4
 
 theorem admit_not_seen (c : BCtx) : ∀ (b : List Tx) (n : Nat) (t : Tx),
-    t ∈ (admitBatch c n b).1 → c.seen t.id = false
+    t ∈ (admitBatch c n b).1 → c.seen t.id = false ∧ t.keysOk = true
   | [], _, _, h => by simp [admitBatch] at h
   | m :: rest, n, t, h => by
     unfold admitBatch at h
@@ -127,9 +127,12 @@ theorem admit_not_seen (c : BCtx) : ∀ (b : List Tx) (n : Nat) (t : Tx),
     · split at h
       · exact admit_not_seen c rest _ t h
       · rename_i hs
-        rcases List.mem_cons.mp h with rfl | h
-        · simpa using hs
+        split at h
         · exact admit_not_seen c rest _ t h
+        · rename_i hk
+          rcases List.mem_cons.mp h with rfl | h
+          · exact ⟨by simpa using hs, by simpa using hk⟩
+          · exact admit_not_seen c rest _ t h
 
 /-- what the theorem imports about the executor and the mempool: the executor only runs closures
 it was handed (C08), and no tx id is run twice in one build (mempool streams each id once, C23;
@@ -141,7 +144,7 @@ structure SchedOK (c : BCtx) (sched : List Tx → List (Tx × Bool)) (bs : List 
 theorem block_no_duplicates (c : BCtx) (sched : List Tx → List (Tx × Bool)) (bs : List (List Tx))
     (ok : SchedOK c sched bs) :
     (((buildLoop c sched (BState.init c) bs).block).map (·.id)).Nodup ∧
-      ∀ t, t ∈ (buildLoop c sched (BState.init c) bs).block → c.seen t.id = false := by
+      ∀ t, t ∈ (buildLoop c sched (BState.init c) bs).block → c.seen t.id = false ∧ t.keysOk = true := by
   obtain ⟨l', h1, h2⟩ := buildLoop_sublist c sched bs (BState.init c)
   have hb : (buildLoop c sched (BState.init c) bs).block = l' := by rw [h1]; rfl
   rw [hb]
